@@ -940,9 +940,19 @@ impl State {
                     continue 'outer;
                 }
 
-                if self.is_mo_before(i, j) && self.stores[j].first_seen.is_seen_by_current(threads) {
-                    // There is a newer store the thread has already seen.
-                    continue 'outer;
+                if self.is_mo_before(i, j) {
+                    if self.stores[j].first_seen.is_seen_by_current(threads) {
+                        // There is a newer store the thread has already seen.
+                        continue 'outer;
+                    }
+
+                    if self.stores[i].first_seen.is_seen_before_yield(threads) {
+                        // As for a load: the thread saw this store before
+                        // it yielded and there is a newer one. Don't return
+                        // it again, or a loop that spins on a rmw operation
+                        // (a test-and-set lock) never sees the unlock.
+                        continue 'outer;
+                    }
                 }
             }
 
